@@ -416,24 +416,35 @@ def order_streams(ctx: Check, wf: list[dict]) -> None:
         if actions and sum(res["actions_done"][k] for k in ("completions", "hover", "lint")) == 0:
             raise Infra(f"scenario {name}: no editor request could be served — the interleaving was not exercised")
         what = "other-node-type" if not actions else "editor-requests"
+        shrunk = None
         for f in res["failures"][:20]:
-            case = {"fresh_process": [cases[0], cases[f["i"]]]} if not actions else \
-                {"fresh_process": [cases[f["i"]]], "actions": _shrink_actions(cases[f["i"]], actions)}
+            if not actions:
+                case = {"fresh_process": [cases[0], cases[f["i"]]]}
+            else:
+                if shrunk is None:   # once per scenario: a single request after which this line already fails
+                    shrunk = _shrink_actions(cases[f["i"]], actions)
+                case = {"fresh_process": [cases[f["i"]]], "actions": shrunk}
             ctx.fail(Failure(f["key"] + f":in-fresh-process-after-{what}", case,
                              f"scenario {name}: {f['detail']}"))
 
 
 def _shrink_actions(case: dict, actions: list[dict]) -> list[dict]:
-    """smallest prefix-free subset found quickly: single requests after which `case` already fails"""
-    for a in actions:
-        try:
-            if fresh_process_failures([case], [a]):
-                return [a]
-        except Infra:
-            break
-        if a is actions[min(len(actions) - 1, 400)]:
-            break
-    return actions
+    """bisect the request list (a few child processes) down to a short prefix after which `case` fails"""
+    lo, hi = 0, len(actions)          # invariant: actions[:hi] makes the case fail
+    try:
+        for _ in range(12):
+            if hi - lo <= 1:
+                break
+            mid = (lo + hi) // 2
+            if fresh_process_failures([case], actions[:mid]):
+                hi = mid
+            else:
+                lo = mid
+        if hi >= 1 and fresh_process_failures([case], actions[hi - 1:hi]):
+            return actions[hi - 1:hi]
+    except Infra:
+        return actions
+    return actions[:hi]
 
 
 def run(ctx: Check) -> int:
